@@ -1,4 +1,4 @@
-(* Source tie, family 79-gotrans-loops-misc, template/registry.go: Registry.LineNumber / ColNumber / Filename as the
+(* Source tie, family 80-gotrans-registry, template/registry.go: Registry.LineNumber / ColNumber / Filename as the
    render-time error path uses them (Model/InterpSafety.v reg_line, reg_file; Model/Interp.v line_number), against the
    methods as gotrans translates them from today's source.  node.Position() enters the translation as the parameter
    m_node_Position (the AST node is immutable).  The guard keeps Go's int addition from wrapping (a template source
